@@ -1,6 +1,82 @@
 package main
 
-func (x *Ex) genFuncsMore(body *LeanFile) {}
+import (
+	"go/ast"
+	"strings"
+)
+
+// embedRet: `return &webdoc.Embed{Element: node, Type: "youtube", ID: youtubeID, ...}` → ("youtube", <id term>)
+func (x *Ex) embedRet(env *Env) func(*ast.ReturnStmt) string {
+	return func(r *ast.ReturnStmt) string {
+		if len(r.Results) == 1 {
+			if id, ok := r.Results[0].(*ast.Ident); ok && id.Name == "nil" {
+				return "none"
+			}
+			if id, ok := r.Results[0].(*ast.Ident); ok {
+				if d, ok := env.defs[id.Name]; ok {
+					if t, ok := env.atoms[env.key(d)]; ok {
+						return t
+					}
+					env.missing["return "+env.key(d)] = true
+					return "none"
+				}
+			}
+			e := r.Results[0]
+			if u, ok := e.(*ast.UnaryExpr); ok {
+				e = u.X
+			}
+			if cl, ok := e.(*ast.CompositeLit); ok && strings.HasSuffix(collapse(x.src(cl.Type)), "Embed") {
+				ty, id := "", ""
+				for _, el := range cl.Elts {
+					kv := el.(*ast.KeyValueExpr)
+					switch collapse(x.src(kv.Key)) {
+					case "Type":
+						ty = x.tr(kv.Value, env)
+					case "ID":
+						id = x.tr(kv.Value, env)
+					}
+				}
+				return "some (" + ty + ", " + id + ")"
+			}
+		}
+		env.missing["return "+collapse(x.src(r))] = true
+		return "none"
+	}
+}
+
+func (x *Ex) embedJob(body *LeanFile, recv, fn, leanName, expect string) {
+	env := x.loadEnv(expect)
+	fd := x.funcDecl("internal/extractor/embed", recv, fn)
+	out := ""
+	if fd != nil {
+		var rs []rule
+		x.retf = x.embedRet(env)
+		x.trRules(fd.Body.List, env, "", &rs)
+		x.retf = nil
+		var sb strings.Builder
+		done := false
+		for _, r := range rs {
+			if r.guard == "true" {
+				sb.WriteString(r.ret)
+				done = true
+				break
+			}
+			sb.WriteString("if " + r.guard + " then " + r.ret + "\nelse ")
+		}
+		if !done {
+			sb.WriteString("none")
+		}
+		out = "(" + sb.String() + " : Option (String × String))"
+	}
+	x.emitOrSentinel(body, "internal/extractor/embed."+recv+"."+fn, leanName, "(a : EmbedAtoms)", "Option (String × String)", out, env)
+}
+
+func (x *Ex) genFuncsMore(body *LeanFile) {
+	x.embedJob(body, "YouTubeExtractor", "Extract", "youtubeExtract", "youtubeExtract")
+	x.embedJob(body, "VimeoExtractor", "Extract", "vimeoExtract", "vimeoExtract")
+	x.embedJob(body, "TwitterExtractor", "extractRendered", "twitterRendered", "twitterRendered")
+	x.embedJob(body, "TwitterExtractor", "extractNonRendered", "twitterNonRendered", "twitterNonRendered")
+}
 
 func (x *Ex) genInventory() string {
 	f := newLeanFile("Inventory", "Inventories: source sites used as proof premises.")
